@@ -261,6 +261,9 @@ func streamLabels(plans []streamPlan, out streamsOutcome, frameMax int) (labels 
 		if p.Fwd.Total == 0 {
 			add("fin-with-syn")
 		}
+		if len(p.Fwd.Writes) == 0 || len(p.Rev.Writes) == 0 {
+			add("closewrite-without-any-write")
+		}
 	}
 	if openers[0] > 0 && openers[1] > 0 {
 		add("both-sides-open")
